@@ -49,6 +49,15 @@ CHECKS = {
  "C10": ("runtime monitor: reference logout validator + signing-state ground truth oracle, kind-confusion workload",
          "exploration: LogoutRequest/LogoutResponse records with injected faults in nine signing states (incl. wrapped, relocated, tampered), raw/DEFLATE, skip on/off, issuer configured or not; accept/flag/typed-error outcomes must match the reference; documents of other kinds are offered to every validator and must never be accepted",
          "relocated signature: implication only", "4/C10"),
+ "C06": ("runtime monitor: reference conditions oracle over IdP-signed responses",
+         "exploration: the first assertion's AudienceRestriction / OneTimeUse / ProxyRestriction are varied over near-miss audiences, empty restrictions, configured URI variants and Count values, signed by the IdP and summarised by the real library; the oracle recomputes the three warnings from the record",
+         "byte equality on decoded text", "4/C06"),
+ "C07": ("runtime monitor: attacker-encryptor workload (party knowing only the SP certificate) + acceptance oracle; SP-certificate window probing with an injected clock",
+         "exploration: forged, attacker-signed, replayed and malformed plaintexts are encrypted to the SP under every algorithm, placed directly or in wrappers, with each recipient variant; acceptance is allowed only for an IdP-signed plaintext placed directly with a correct recipient; ValidateEncryptionCert is probed with empty/junk certificates and clocks around the certificate window",
+         "certificate-window equality instants not probed", "4/C07"),
+ "C12": ("runtime monitor: allocation meter (runtime.MemStats.TotalAlloc delta, VmHWM) + compressed/uncompressed twin oracle at exact sizes around the limit",
+         "exploration: documents inflating to exactly L-1, L, L+1, 2L, 10L for six limits and five DEFLATE levels on all six entry points, and bombs up to 1 GiB; within the limit the compressed and uncompressed twins must agree in outcome class and data; over the limit the call must fail and may allocate at most 8 L + 4 |input| + 2 MiB",
+         "allocation bound has slack (measured 5.1 L + 0.8 MiB)", "4/C12"),
 }
 
 NOT_BUILT = "monitor not built yet in this session (planned in DESIGN.md section 4)"
